@@ -128,11 +128,15 @@ Definition implicit_node (ns : list node) (o : op) : node :=
   | Some i => Node (Some i) (LRel RelationType_FOLLOWED_BY i) o
   end.
 
+Lemma latest_of_nil ns : latest_of ns [] = None.
+Proof. unfold latest_of. induction (rev (bfs (parents ns))) as [|x t IH]; simpl; [reflexivity | exact IH]. Qed.
+
 Theorem add_node_implicit env ns o l : implicit_link (length ns) l -> add_node env ns o l = ns ++ [implicit_node ns o].
 Proof.
   intros I. unfold add_node, implicit_node. f_equal. f_equal.
   destruct l as [|t p|[|q ps]|t]; simpl in I; try reflexivity; try contradiction.
-  destruct (Nat.ltb_spec p (length ns)); [lia | reflexivity].
+  - destruct (Nat.ltb_spec p (length ns)); [lia | reflexivity].
+  - now rewrite latest_of_nil.
 Qed.
 
 Theorem add_node_explicit env ns o t p : (p < length ns)%nat ->
